@@ -35,7 +35,7 @@ class XslGen:
     # ------------------------------------------------------------------ expressions
     def gen(self, scope):
         vt = {k: ("str" if v == "any" else v) for k, v in scope.items() if v in ("num", "str", "bool", "ns", "any")}
-        return xpgen.Gen(self.r, vars_=vt, keys=getattr(self, "keynames", ()))
+        return xpgen.Gen(self.r, vars_=vt, keys=getattr(self, "keynames", ()), current=True)
 
     def expr(self, scope, kind="any", d=None):
         g = self.gen(scope)
@@ -446,6 +446,13 @@ def multidoc_stylesheet(rng):
         lambda k: [tag("eq="), vo(bin_("=", P_(DOS, ch(t_name("b")), abs_=True), inD(k, DOS, ch(t_name("b"))))), tag(" ws="), vo(fn("count", inD(k, DOS, ch(T_TEXT))))],
         lambda k: [{"i": "for-each", "sel": inD(k, DOS, ch(t())), "sorts": [], "body": [tag("("), {"i": "number", "instr": {"level": rng.choice(["single", "multiple", "any"]),
                     "hasCount": True, "count": bin_("|", P_(ch(t_name("a"))), P_(ch(t_name("b")))), "hasFrom": False, "from": P_(ch(t_name("a")))}, "fmt": cps("1.1")}, tag(")")]}],
+    ]
+    # key() / id() / lang() asked from context nodes of the loaded document while the CURRENT node stays in the main document
+    pieces += [
+        lambda k: [tag("xk="), vo(fn("count", inD(k, DOS, ch(T_ANY, bin_(">", fn("count", fn("key", lit("k"), P_(at(t_name("x"))))), num(0))))))],
+        lambda k: [tag("xid="), vo(fn("count", inD(k, DOS, ch(T_ANY, bin_("=", fn("count", bin_("|", P_(step("self", T_NODE)), fn("id", lit("i1 i2 i3")))), num(3)))))),
+                   tag(","), vo(fn("name", inD(k, DOS, ch(T_ANY, bin_("=", fn("generate-id"), fn("generate-id", fn("id", lit("i2"))))))))],
+        lambda k: [tag("cur="), vo(fn("count", inD(k, DOS, ch(T_ANY, bin_("=", fn("name"), fn("name", path([ch(T_ANY)], start=fn("current"))))))))],
     ]
     body = []
     for _ in range(rng.choice([2, 3, 4])):
